@@ -37,6 +37,8 @@ pub struct Parser<R> {
     scratch: Vec<u8>,
     remaining_depth: u8,
     options: Options,
+    // Set when an iterator obtained from this parser has yielded an error
+    iter_failed: bool,
 }
 
 /// Various options to influence parser behavior.
@@ -285,6 +287,7 @@ where
             scratch: Vec::with_capacity(128),
             remaining_depth: 128,
             options: Options::default(),
+            iter_failed: false,
         }
     }
 
@@ -303,6 +306,7 @@ where
             scratch: Vec::with_capacity(128),
             remaining_depth: 128,
             options,
+            iter_failed: false,
         }
     }
 }
@@ -1640,7 +1644,16 @@ where
     type Item = Result<Value>;
 
     fn next(&mut self) -> Option<Self::Item> {
-        self.0.next_value().transpose()
+        // An error may leave the parser at the same position; fuse the
+        // iterator instead of yielding the same error forever.
+        if self.0.iter_failed {
+            return None;
+        }
+        let item = self.0.next_value().transpose();
+        if let Some(Err(_)) = item {
+            self.0.iter_failed = true;
+        }
+        item
     }
 }
 
@@ -1654,7 +1667,14 @@ where
     type Item = Result<Datum>;
 
     fn next(&mut self) -> Option<Self::Item> {
-        self.0.next_datum().transpose()
+        if self.0.iter_failed {
+            return None;
+        }
+        let item = self.0.next_datum().transpose();
+        if let Some(Err(_)) = item {
+            self.0.iter_failed = true;
+        }
+        item
     }
 }
 
